@@ -288,14 +288,15 @@ theorem find?_of_nodup {β : Type} (l : List (String × β)) (hnd : (l.map (·.1
     · have hne : ¬ q.1 = p.1 := fun he => hnd.1 (he ▸ List.mem_map.2 ⟨p, hp', rfl⟩)
       simp [hne, ih hnd.2 hp']
 
-/-- `--list-items` reports each item of a section exactly once: as many lines as the section has keys, no key twice -/
+/-- `--list-items` reports each item exactly once: as many lines as the sections have keys plus one per `[Variables]` entry -/
 theorem C14_list_once_partial (ini : Ini) (h : ∀ p ∈ ini.sections, (p.2.map (·.1)).Nodup)
     (hsec : (ini.sections.map (·.1)).Nodup) :
-    (listItems currentCfg ini).length = (ini.sections.map (fun p => p.2.length)).sum := by
+    (listItems currentCfg ini).length = (ini.sections.map (fun p => p.2.length)).sum + ini.vars.length := by
   have _ := h
-  unfold listItems
+  unfold listItems listSectionItems
+  simp only [currentCfg, if_true, List.length_append, List.length_map]
   rw [List.length_flatMap]
-  congr 1
+  congr 2
   apply List.map_congr_left
   intro p hp
   simp [sectionKeys, find?_of_nodup _ hsec p hp, currentCfg]
@@ -316,10 +317,10 @@ theorem C14_shipped_add_witness :
     applyOp currentCfg exIni (.add "Pair" "A - B" "new") = .error .exists := by
   constructor <;> rfl
 
-/-- shipped: with a [Variables] section every other section also listed the variables -/
+/-- shipped: with a [Variables] section every other section also listed the variables (and the variables themselves were not listed as items) -/
 theorem C14_shipped_list_witness :
     listItems shippedCfg ⟨[("Pair", [("A-B", "x")])], [("v", "1")]⟩ = [("Pair", "A-B", "x"), ("Pair", "v", "1")] ∧
-    listItems currentCfg ⟨[("Pair", [("A-B", "x")])], [("v", "1")]⟩ = [("Pair", "A-B", "x")] := by
+    listItems currentCfg ⟨[("Pair", [("A-B", "x")])], [("v", "1")]⟩ = [("Pair", "A-B", "x"), ("Variables", "v", "1")] := by
   decide
 
 end Atsim.C14
